@@ -1166,3 +1166,415 @@ Proof.
            end.
   - vm_compute. reflexivity.
 Qed.
+
+(** * Any depth, when the table is exact ([table_exactb]): every product and sum of [cascade] and
+    of [Point::transform] is then an integer below 2^53 in magnitude, hence a double, hence not moved
+    by the rounding -- the float transform IS the integer transform. *)
+Local Open Scope Q_scope.
+Definition exact (d : dy) (z : Z) : Prop := qval d == inject_Z z.
+
+Lemma inject_Z_inj : forall a b, inject_Z a == inject_Z b -> a = b.
+Proof. intros a b H. unfold Qeq in H. cbn in H. lia. Qed.
+
+Lemma p2_neg_inv : forall e, p2 e * p2 (- e) == 1.
+Proof. intro e. rewrite <- p2_add. replace (e + - e)%Z with 0%Z by lia. reflexivity. Qed.
+
+Lemma dy_is_exact : forall d z, dy_is d z = true -> exact d z.
+Proof.
+  intros [m e] z H. unfold dy_is in H. unfold exact, qval; cbn [fst snd].
+  destruct (0 <=? e)%Z eqn:Ee.
+  - apply Z.leb_le in Ee. apply Z.eqb_eq in H. rewrite <- p2_Z, <- inject_Z_mult, H by lia. reflexivity.
+  - apply Z.leb_gt in Ee. apply Z.eqb_eq in H. subst m.
+    rewrite inject_Z_mult, p2_Z by lia.
+    setoid_replace (inject_Z z * p2 (- e) * p2 e) with (inject_Z z * (p2 e * p2 (- e))) by ring.
+    rewrite p2_neg_inv. ring.
+Qed.
+
+(** an integer below 2^53 in magnitude is a double: rounding does not move it *)
+Lemma exact_Z_form : forall m e N, exact (m, e) N ->
+    if (0 <=? e)%Z then (m * 2 ^ e = N)%Z else (m = N * 2 ^ (- e))%Z.
+Proof.
+  intros m e N H. unfold exact, qval in H; cbn [fst snd] in H.
+  destruct (0 <=? e)%Z eqn:Ee.
+  - apply Z.leb_le in Ee. rewrite <- p2_Z, <- inject_Z_mult in H by lia. apply inject_Z_inj. exact H.
+  - apply Z.leb_gt in Ee. apply inject_Z_inj. rewrite inject_Z_mult, p2_Z by lia.
+    rewrite <- H. setoid_replace (inject_Z m * p2 e * p2 (- e)) with (inject_Z m * (p2 e * p2 (- e))) by ring.
+    rewrite p2_neg_inv. ring.
+Qed.
+
+Lemma bitlen_le : forall m k, (0 <= k)%Z -> (Z.abs m < 2 ^ k)%Z -> (bitlen m <= k)%Z.
+Proof.
+  intros m k Hk H. unfold bitlen. destruct (m =? 0)%Z eqn:E; [lia|]. apply Z.eqb_neq in E.
+  assert (Z.log2 (Z.abs m) < k)%Z by (apply Z.log2_lt_pow2; lia). lia.
+Qed.
+
+Lemma round_flt_int : forall d N, exact d N -> (Z.abs N < 2 ^ 53)%Z -> exact (round_flt d) N.
+Proof.
+  intros [m e] N H HN. pose proof (exact_Z_form m e N H) as HZ. unfold round_flt.
+  set (sh := Z.max (bitlen m - 53) (-1074 - e)).
+  destruct (sh <=? 0)%Z eqn:Esh; [exact H|]. apply Z.leb_gt in Esh.
+  destruct (0 <=? e)%Z eqn:Ee.
+  - exfalso. apply Z.leb_le in Ee.
+    assert (Hp : (0 < 2 ^ e)%Z) by (apply Z.pow_pos_nonneg; lia).
+    assert (Hm : (Z.abs m < 2 ^ 53)%Z) by (subst N; rewrite Z.abs_mul in HN; nia).
+    pose proof (bitlen_le m 53 ltac:(lia) Hm). lia.
+  - apply Z.leb_gt in Ee. subst m.
+    assert (Hpe : (0 < 2 ^ (- e))%Z) by (apply Z.pow_pos_nonneg; lia).
+    assert (Hsh : (sh <= - e)%Z).
+    { apply Z.max_lub; [|lia].
+      assert (Hm : (Z.abs (N * 2 ^ (- e)) < 2 ^ (53 + - e))%Z).
+      { rewrite Z.abs_mul, Z.pow_add_r, (Z.abs_eq (2 ^ (- e))) by lia. nia. }
+      pose proof (bitlen_le _ (53 + - e) ltac:(lia) Hm). lia. }
+    assert (Hsplit : (2 ^ (- e) = 2 ^ (- e - sh) * 2 ^ sh)%Z) by (rewrite <- Z.pow_add_r by lia; f_equal; lia).
+    assert (Hd : (0 < 2 ^ sh)%Z) by (apply Z.pow_pos_nonneg; lia).
+    assert (Hq : rne_shift (N * 2 ^ (- e)) sh = (N * 2 ^ (- e - sh))%Z).
+    { unfold rne_shift. rewrite pow2_eq, divp2_eq, modp2_eq by lia.
+      rewrite Hsplit, Z.mul_assoc, Z.mod_mul, Z.div_mul by lia.
+      replace (2 * 0 <? 2 ^ sh)%Z with true by (symmetry; apply Z.ltb_lt; lia). reflexivity. }
+    rewrite Hq. unfold exact, qval; cbn [fst snd].
+    rewrite inject_Z_mult, p2_Z by lia. rewrite <- Qmult_assoc, <- p2_add.
+    replace (- e - sh + (e + sh))%Z with 0%Z by lia. rewrite p2_0. ring.
+Qed.
+
+Lemma chk_round_int : forall d N, exact d N -> (Z.abs N < 2 ^ 53)%Z ->
+    exists r, chk (round_flt d) = Some r /\ exact r N.
+Proof.
+  intros d N H HN. pose proof (round_flt_int d N H HN) as Hr. exists (round_flt d). split; [|exact Hr].
+  unfold chk. rewrite finite_ok_of_bound; [reflexivity|]. unfold exact in Hr. rewrite Hr, Qabs_inject.
+  apply Qlt_trans with (inject_Z (2 ^ 53)); [rewrite <- Zlt_Qlt; exact HN|]. unfold Qlt; vm_compute; reflexivity.
+Qed.
+
+Lemma fmul_int : forall a b A B, exact a A -> exact b B -> (Z.abs (A * B) < 2 ^ 53)%Z ->
+    exists r, fmul a b = Some r /\ exact r (A * B).
+Proof.
+  intros a b A B Ha Hb H. unfold fmul. apply chk_round_int; [|exact H].
+  unfold exact in *. rewrite val_mul_exact, Ha, Hb, inject_Z_mult. reflexivity.
+Qed.
+Lemma fadd_int : forall a b A B, exact a A -> exact b B -> (Z.abs (A + B) < 2 ^ 53)%Z ->
+    exists r, fadd a b = Some r /\ exact r (A + B).
+Proof.
+  intros a b A B Ha Hb H. unfold fadd. apply chk_round_int; [|exact H].
+  unfold exact in *. rewrite val_add_exact, Ha, Hb, inject_Z_plus. reflexivity.
+Qed.
+
+(** a signed unit row times an integer column, plus an integer: exact while below 2^53 *)
+Lemma dot2_int : forall x0 x1 y0 y1 P0 P1 Y0 Y1,
+    exact x0 P0 -> exact x1 P1 -> exact y0 Y0 -> exact y1 Y1 ->
+    (Z.abs P0 + Z.abs P1 = 1)%Z -> (Z.abs Y0 < 2 ^ 53)%Z -> (Z.abs Y1 < 2 ^ 53)%Z ->
+    exists r, dot2 x0 y0 x1 y1 = Some r /\ exact r (P0 * Y0 + P1 * Y1).
+Proof.
+  intros x0 x1 y0 y1 P0 P1 Y0 Y1 Hx0 Hx1 Hy0 Hy1 HP HY0 HY1.
+  assert (C0 : (P0 = 0 \/ P0 = 1 \/ P0 = -1)%Z) by lia.
+  assert (C1 : (P1 = 0 \/ P1 = 1 \/ P1 = -1)%Z) by lia.
+  assert (H0 : (Z.abs (P0 * Y0) < 2 ^ 53)%Z) by (destruct C0 as [-> | [-> | ->]]; lia).
+  assert (H1 : (Z.abs (P1 * Y1) < 2 ^ 53)%Z) by (destruct C1 as [-> | [-> | ->]]; lia).
+  assert (Hs : (Z.abs (P0 * Y0 + P1 * Y1) < 2 ^ 53)%Z)
+    by (destruct C0 as [-> | [-> | ->]]; destruct C1 as [-> | [-> | ->]]; lia).
+  unfold dot2.
+  destruct (fmul_int x0 y0 P0 Y0 Hx0 Hy0 H0) as [t0 [Ht0 He0]]. rewrite Ht0.
+  destruct (fmul_int x1 y1 P1 Y1 Hx1 Hy1 H1) as [t1 [Ht1 He1]]. rewrite Ht1.
+  exact (fadd_int t0 t1 _ _ He0 He1 Hs).
+Qed.
+
+Lemma affine_int : forall x0 x1 y0 y1 pb P0 P1 Y0 Y1 PB,
+    exact x0 P0 -> exact x1 P1 -> exact y0 Y0 -> exact y1 Y1 -> exact pb PB ->
+    (Z.abs P0 + Z.abs P1 = 1)%Z -> (Z.abs Y0 < 2 ^ 53)%Z -> (Z.abs Y1 < 2 ^ 53)%Z ->
+    (Z.abs (P0 * Y0 + P1 * Y1 + PB) < 2 ^ 53)%Z ->
+    exists r c, dot2 x0 y0 x1 y1 = Some r /\ fadd r pb = Some c /\ exact c (P0 * Y0 + P1 * Y1 + PB).
+Proof.
+  intros x0 x1 y0 y1 pb P0 P1 Y0 Y1 PB Hx0 Hx1 Hy0 Hy1 Hpb HP HY0 HY1 HB.
+  destruct (dot2_int x0 x1 y0 y1 P0 P1 Y0 Y1 Hx0 Hx1 Hy0 Hy1 HP HY0 HY1) as [r [Hr Her]].
+  destruct (fadd_int r pb _ _ Her Hpb HB) as [c [Hc Hec]].
+  exists r, c. repeat split; assumption.
+Qed.
+
+Lemma exact_int : forall n, exact (n, 0%Z) n.
+Proof. intro n. unfold exact. apply val_int. Qed.
+Lemma exact_fneg : forall d z, exact d z -> exact (fneg d) (- z).
+Proof. unfold exact. intros d z H. rewrite val_fneg, H, inject_Z_opp. reflexivity. Qed.
+Lemma exact_zero : exact dzero 0. Proof. reflexivity. Qed.
+Lemma exact_one : exact done 1. Proof. reflexivity. Qed.
+
+Local Open Scope Z_scope.
+
+(** * the exact invariant: the float transform IS the integer transform *)
+Record xinv (t : ftransform) (tz : Ztransform) : Prop := mkXinv {
+  x_sp : sperm tz;
+  x_a00 : exact (a00 t) (a00 tz); x_a01 : exact (a01 t) (a01 tz);
+  x_a10 : exact (a10 t) (a10 tz); x_a11 : exact (a11 t) (a11 tz);
+  x_b0 : exact (b0 t) (b0 tz); x_b1 : exact (b1 t) (b1 tz);
+  x_z0 : Z.abs (b0 tz) < 2 ^ 53; x_z1 : Z.abs (b1 tz) < 2 ^ 53 }.
+
+Record xchild (L : Z) (it : ftransform) (iz : Ztransform) : Prop := mkXchild {
+  xc_sp : sperm iz;
+  xc_a00 : exact (a00 it) (a00 iz); xc_a01 : exact (a01 it) (a01 iz);
+  xc_a10 : exact (a10 it) (a10 iz); xc_a11 : exact (a11 it) (a11 iz);
+  xc_b0 : b0 it = (b0 iz, 0); xc_b1 : b1 it = (b1 iz, 0);
+  xc_z0 : Z.abs (b0 iz) <= L; xc_z1 : Z.abs (b1 iz) <= L }.
+
+Lemma xinv_identity : xinv identity_f identity_Z.
+Proof.
+  constructor; cbn [identity_f identity_Z identity a00 a01 a10 a11 b0 b1 ZR k0 k1];
+    try exact exact_zero; try exact exact_one; try (cbn; lia).
+  unfold sperm; cbn; lia.
+Qed.
+
+Lemma xcascade_step : forall L t tz it iz,
+    L < 2 ^ 53 -> xinv t tz -> xchild L it iz ->
+    Z.abs (b0 (cascade_Z tz iz)) < 2 ^ 53 -> Z.abs (b1 (cascade_Z tz iz)) < 2 ^ 53 ->
+    exists t', cascade_f t it = Some t' /\ xinv t' (cascade_Z tz iz).
+Proof.
+  intros L t tz it iz HL Hi Hc HB0 HB1.
+  destruct Hi as [Isp Ia00 Ia01 Ia10 Ia11 Ib0 Ib1 Iz0 Iz1].
+  destruct Hc as [Csp Ca00 Ca01 Ca10 Ca11 Cb0 Cb1 Cz0 Cz1].
+  pose proof (sperm_cascade tz iz Isp Csp) as Hsp'.
+  destruct Isp as [R0 [R1 [K0 K1]]]. destruct Csp as [S0 [S1 [T0 T1]]].
+  destruct tz as [p00 p01 p10 p11 pb0 pb1]. destruct iz as [q00 q01 q10 q11 qb0 qb1].
+  unfold cascade_Z, cascade, matmul, matvec in *. zr. cbn [a00 a01 a10 a11 b0 b1 fst snd] in *.
+  zr. cbn [a00 a01 a10 a11 b0 b1 fst snd ZR kadd kmul] in HB0, HB1.
+  unfold cascade_f, matvec_f, matmul_f. cbn [fst snd]. rewrite Cb0, Cb1.
+  assert (Hq0 : Z.abs qb0 < 2 ^ 53) by (clear - Cz0 HL; lia).
+  assert (Hq1 : Z.abs qb1 < 2 ^ 53) by (clear - Cz1 HL; lia).
+  assert (E00 : Z.abs q00 < 2 ^ 53) by (clear - T0; lia).
+  assert (E10 : Z.abs q10 < 2 ^ 53) by (clear - T0; lia).
+  assert (E01 : Z.abs q01 < 2 ^ 53) by (clear - T1; lia).
+  assert (E11 : Z.abs q11 < 2 ^ 53) by (clear - T1; lia).
+  destruct (affine_int _ _ _ _ _ _ _ _ _ _ Ia00 Ia01 (exact_int qb0) (exact_int qb1) Ib0 R0 Hq0 Hq1 HB0)
+    as [r0 [c0 [Hr0 [Hc0 He0]]]].
+  destruct (affine_int _ _ _ _ _ _ _ _ _ _ Ia10 Ia11 (exact_int qb0) (exact_int qb1) Ib1 R1 Hq0 Hq1 HB1)
+    as [r1 [c1 [Hr1 [Hc1 He1]]]].
+  rewrite Hr0, Hr1. cbn [fst snd]. rewrite Hc0, Hc1.
+  destruct (dot2_int _ _ _ _ _ _ _ _ Ia00 Ia01 Ca00 Ca10 R0 E00 E10) as [m00 [Hm00 Hn00]].
+  destruct (dot2_int _ _ _ _ _ _ _ _ Ia00 Ia01 Ca01 Ca11 R0 E01 E11) as [m01 [Hm01 Hn01]].
+  destruct (dot2_int _ _ _ _ _ _ _ _ Ia10 Ia11 Ca00 Ca10 R1 E00 E10) as [m10 [Hm10 Hn10]].
+  destruct (dot2_int _ _ _ _ _ _ _ _ Ia10 Ia11 Ca01 Ca11 R1 E01 E11) as [m11 [Hm11 Hn11]].
+  rewrite Hm00, Hm01, Hm10, Hm11.
+  eexists. split; [reflexivity|].
+  constructor; cbn [a00 a01 a10 a11 b0 b1]; assumption.
+Qed.
+
+Lemma xapply : forall t tz x y,
+    xinv t tz -> Z.abs x < 2 ^ 53 -> Z.abs y < 2 ^ 53 ->
+    Z.abs (fst (apply_Z tz (x, y))) < 2 ^ 53 -> Z.abs (snd (apply_Z tz (x, y))) < 2 ^ 53 ->
+    apply_f t (x, y) = Some (apply_Z tz (x, y)).
+Proof.
+  intros t tz x y Hi Hx Hy HX HY.
+  destruct Hi as [Isp Ia00 Ia01 Ia10 Ia11 Ib0 Ib1 Iz0 Iz1]. destruct Isp as [R0 [R1 [K0 K1]]].
+  destruct tz as [p00 p01 p10 p11 pb0 pb1]. unfold apply_Z, apply in *. zr. cbn [a00 a01 a10 a11 b0 b1 fst snd] in *.
+  zr. cbn [fst snd ZR kadd kmul] in HX, HY.
+  unfold apply_f. cbn [fst snd]. rewrite (f_of_int_exact x), (f_of_int_exact y) by assumption.
+  destruct (affine_int _ _ _ _ _ _ _ _ _ _ Ia00 Ia01 (exact_int x) (exact_int y) Ib0 R0 Hx Hy HX) as [r0 [c0 [Hr0 [Hc0 He0]]]].
+  destruct (affine_int _ _ _ _ _ _ _ _ _ _ Ia10 Ia11 (exact_int x) (exact_int y) Ib1 R1 Hx Hy HY) as [r1 [c1 [Hr1 [Hc1 He1]]]].
+  rewrite Hr0, Hc0, Hr1, Hc1.
+  assert (Hf : forall c N, exact c N -> Z.abs N < 2 ^ 53 -> as_isize (f_round c) = N).
+  { intros c N He HN. rewrite (f_round_near c N).
+    - apply as_isize_id. lia.
+    - unfold exact in He. rewrite He. setoid_replace (inject_Z N - inject_Z N)%Q with 0%Q by ring. reflexivity. }
+  rewrite (Hf _ _ He0 HX), (Hf _ _ He1 HY). reflexivity.
+Qed.
+
+Lemma exact_cs_unit : forall a C Sn, exact_cs a = Some (C, Sn) -> Z.abs C + Z.abs Sn = 1.
+Proof.
+  intros a C Sn H. unfold exact_cs in H. destruct (a mod 90 =? 0); [|discriminate].
+  repeat match type of H with context [if ?b then _ else _] => destruct b end;
+    injection H as <- <-; reflexivity.
+Qed.
+
+Lemma table_angle_exact : table_exactb = true -> forall a, In a (map fst libm_sincos_table) ->
+    exists sn cs C Sn, libm_sincos a = Some (sn, cs) /\ exact_cs a = Some (C, Sn) /\ exact sn Sn /\ exact cs C.
+Proof.
+  intros Ht a Hin. destruct (assocZ_in _ a Hin) as [[sb cb] [Has Hi]].
+  unfold table_exactb in Ht. rewrite forallb_forall in Ht.
+  specialize (Ht _ Hi). unfold entry_exactb in Ht. unfold libm_sincos. rewrite Has.
+  destruct (dy_of_bits sb) as [sn|]; [|discriminate]. destruct (dy_of_bits cb) as [cs|]; [|discriminate].
+  destruct (exact_cs a) as [[C Sn]|]; [|discriminate].
+  apply andb_prop in Ht. destruct Ht as [H1 H2].
+  exists sn, cs, C, Sn. repeat split; try reflexivity; apply dy_is_exact; assumption.
+Qed.
+
+Lemma xchild_of_pair : forall L lx ly (r : bool) sn cs C Sn,
+    exact sn Sn -> exact cs C -> Z.abs C + Z.abs Sn = 1 -> Z.abs lx <= L -> Z.abs ly <= L ->
+    xchild L (if r then mkT cs sn sn (fneg cs) (lx, 0) (ly, 0) else mkT cs (fneg sn) sn cs (lx, 0) (ly, 0))
+           (from_instance ZR lx ly r C Sn).
+Proof.
+  intros L lx ly r sn cs C Sn Hs Hc Hu Hlx Hly.
+  pose proof (exact_fneg _ _ Hs) as Hns. pose proof (exact_fneg _ _ Hc) as Hnc.
+  destruct r; unfold from_instance; constructor; zr; try assumption; try reflexivity;
+    unfold sperm; zr; lia.
+Qed.
+
+Lemma placement_xchild : table_exactb = true -> forall L p, L < 2 ^ 53 -> placement_ok L p ->
+    exists it z, from_placement_f p = Some it /\ zplacement_of p = Some z /\ xchild L it (from_placement_Z z).
+Proof.
+  intros Ht L [[[lx ly] r] oa] HL [Hlx [Hly Ha]].
+  unfold from_placement_f, from_placement_gen, zplacement_of.
+  destruct oa as [a|].
+  - destruct (table_angle_exact Ht a Ha) as [sn [cs [C [Sn [Hl [He [Hs Hc]]]]]]]. rewrite Hl, He.
+    unfold from_instance_f. rewrite (f_of_int_exact lx), (f_of_int_exact ly) by lia.
+    cbn [sincos_of]. eexists. eexists. split; [reflexivity|]. split; [reflexivity|].
+    unfold from_placement_Z, from_placement, from_instance_opt, cs_of. cbn [fst snd].
+    apply xchild_of_pair; try assumption. exact (exact_cs_unit a C Sn He).
+  - unfold from_instance_f. rewrite (f_of_int_exact lx), (f_of_int_exact ly) by lia.
+    cbn [sincos_of]. eexists. eexists. split; [reflexivity|]. split; [reflexivity|].
+    unfold from_placement_Z, from_placement, from_instance_opt, cs_of. cbn [fst snd ZR k0 k1].
+    apply xchild_of_pair; try assumption; try reflexivity.
+Qed.
+
+(** * chains of any depth, precise bound: every prefix offset and the image below 2^53 *)
+Lemma xchain : table_exactb = true -> forall L chain zc t tz,
+    L < 2 ^ 53 -> xinv t tz -> Forall (placement_ok L) chain -> zchain_of chain = Some zc ->
+    offsets_below (2 ^ 53) tz zc ->
+    exists t', chain_f t chain = Some t' /\ xinv t' (chain_Z tz zc).
+Proof.
+  intros Ht L chain. induction chain as [|p chain IH]; intros zc t tz HL Hi Hall Hzc Hoff.
+  - cbn in Hzc. injection Hzc as <-. exists t. split; [reflexivity | exact Hi].
+  - inversion Hall as [|p' l' Hp Hrest]; subst. cbn [zchain_of] in Hzc.
+    destruct (placement_xchild Ht L p HL Hp) as [it [z [Hit [Hz Hc]]]]. rewrite Hz in Hzc.
+    destruct (zchain_of chain) as [zr|] eqn:Ezr; [|discriminate]. injection Hzc as <-.
+    cbn [offsets_below] in Hoff. destruct Hoff as [H0 [H1 Hoff]].
+    destruct (xcascade_step L t tz it (from_placement_Z z) HL Hi Hc H0 H1) as [t1 [Ht1 Hi1]].
+    destruct (IH zr t1 _ HL Hi1 Hrest eq_refl Hoff) as [t' [Ht' Hi']].
+    exists t'. cbn [chain_f chain_Z]. rewrite Hit, Ht1. split; [exact Ht' | exact Hi'].
+Qed.
+
+Theorem chain_image_exact_any_depth : table_exactb = true ->
+  forall (chain : list fplacement) (zc : list (placement Z)) (x y : Z),
+    Forall (placement_ok (2 ^ 53 - 1)) chain -> zchain_of chain = Some zc ->
+    offsets_below (2 ^ 53) identity_Z zc ->
+    Z.abs x < 2 ^ 53 -> Z.abs y < 2 ^ 53 ->
+    Z.abs (fst (apply_Z (chain_Z identity_Z zc) (x, y))) < 2 ^ 53 ->
+    Z.abs (snd (apply_Z (chain_Z identity_Z zc) (x, y))) < 2 ^ 53 ->
+    exists sp, spec_path_of chain = Some sp /\ chain_image_f chain (x, y) = Some (path_image sp (x, y)).
+Proof.
+  intros Ht chain zc x y Hall Hzc Hoff Hx Hy HX HY.
+  destruct (xchain Ht (2 ^ 53 - 1) chain zc identity_f identity_Z ltac:(lia) xinv_identity Hall Hzc Hoff)
+    as [t [Hcf Hi]].
+  destruct (zchain_spec chain zc Hzc) as [sp [Hsp Hv]].
+  exists sp. split; [exact Hsp|]. unfold chain_image_f. rewrite Hcf.
+  rewrite (xapply t _ x y Hi Hx Hy HX HY). rewrite Hv. reflexivity.
+Qed.
+
+(** * uniform bound: depth * L + X < 2^53 *)
+Lemma zstep_bound : forall L M tz it iz,
+    sperm tz -> xchild L it iz -> Z.abs (b0 tz) <= M -> Z.abs (b1 tz) <= M ->
+    Z.abs (b0 (cascade_Z tz iz)) <= M + L /\ Z.abs (b1 (cascade_Z tz iz)) <= M + L.
+Proof.
+  intros L M tz it iz [R0 [R1 _]] Hc H0 H1. destruct Hc as [_ _ _ _ _ _ _ Cz0 Cz1].
+  destruct tz as [p00 p01 p10 p11 pb0 pb1]. destruct iz as [q00 q01 q10 q11 qb0 qb1].
+  unfold cascade_Z, cascade, matmul, matvec. zr. cbn [a00 a01 a10 a11 b0 b1 fst snd] in *.
+  pose proof (sign_unit_dot p00 p01 qb0 qb1 L R0 Cz0 Cz1).
+  pose proof (sign_unit_dot p10 p11 qb0 qb1 L R1 Cz0 Cz1).
+  clear - H H2 H0 H1. lia.
+Qed.
+
+Lemma xchain_uniform : table_exactb = true -> forall L chain d t tz,
+    0 <= L -> xinv t tz -> Z.abs (b0 tz) <= d * L -> Z.abs (b1 tz) <= d * L ->
+    Forall (placement_ok L) chain -> (d + Z.of_nat (length chain)) * L < 2 ^ 53 -> 0 <= d ->
+    exists zc t', zchain_of chain = Some zc /\ chain_f t chain = Some t' /\ xinv t' (chain_Z tz zc) /\
+                  Z.abs (b0 (chain_Z tz zc)) <= (d + Z.of_nat (length chain)) * L /\
+                  Z.abs (b1 (chain_Z tz zc)) <= (d + Z.of_nat (length chain)) * L.
+Proof.
+  intros Ht L chain. induction chain as [|p chain IH]; intros d t tz HL0 Hi Hb0 Hb1 Hall Hlen Hd.
+  - exists [], t. cbn [length Z.of_nat zchain_of chain_f chain_Z]. replace (d + 0) with d by lia.
+    split; [reflexivity|]. split; [reflexivity|]. split; [exact Hi|]. split; assumption.
+  - inversion Hall as [|p' l' Hp Hrest]; subst. cbn [length] in Hlen. rewrite Nat2Z.inj_succ in Hlen.
+    assert (HL : L < 2 ^ 53) by nia.
+    destruct (placement_xchild Ht L p HL Hp) as [it [z [Hit [Hz Hc]]]].
+    destruct (zstep_bound L (d * L) tz it (from_placement_Z z) (x_sp _ _ Hi) Hc Hb0 Hb1) as [B0 B1].
+    assert (Hlt : (d + 1) * L < 2 ^ 53) by nia.
+    destruct (xcascade_step L t tz it (from_placement_Z z) HL Hi Hc ltac:(lia) ltac:(lia)) as [t1 [Ht1 Hi1]].
+    destruct (IH (d + 1) t1 _ HL0 Hi1 ltac:(lia) ltac:(lia) Hrest ltac:(lia) ltac:(lia))
+      as [zr [t' [Hzr [Ht' [Hi' [C0 C1]]]]]].
+    exists (z :: zr), t'. cbn [zchain_of chain_f chain_Z length]. rewrite Hz, Hzr, Hit, Ht1.
+    rewrite Nat2Z.inj_succ.
+    replace (d + Z.succ (Z.of_nat (length chain))) with (d + 1 + Z.of_nat (length chain)) by lia.
+    split; [reflexivity|]. split; [exact Ht'|]. split; [exact Hi'|]. split; assumption.
+Qed.
+
+Lemma apply_Z_bound : forall tz x y X B, sperm tz -> Z.abs x <= X -> Z.abs y <= X ->
+    Z.abs (b0 tz) <= B -> Z.abs (b1 tz) <= B ->
+    Z.abs (fst (apply_Z tz (x, y))) <= X + B /\ Z.abs (snd (apply_Z tz (x, y))) <= X + B.
+Proof.
+  intros tz x y X B [R0 [R1 _]] Hx Hy H0 H1. destruct tz as [p00 p01 p10 p11 pb0 pb1].
+  unfold apply_Z, apply. zr. cbn [a00 a01 a10 a11 b0 b1 fst snd] in *.
+  pose proof (sign_unit_dot p00 p01 x y X R0 Hx Hy). pose proof (sign_unit_dot p10 p11 x y X R1 Hx Hy).
+  clear - H H2 H0 H1. lia.
+Qed.
+
+Theorem chain_image_exact_any_depth_uniform : table_exactb = true ->
+  forall (L X : Z) (chain : list fplacement) (x y : Z),
+    0 <= L -> Forall (placement_ok L) chain -> Z.abs x <= X -> Z.abs y <= X ->
+    Z.of_nat (length chain) * L + X < 2 ^ 53 ->
+    exists sp, spec_path_of chain = Some sp /\ chain_image_f chain (x, y) = Some (path_image sp (x, y)).
+Proof.
+  intros Ht L X chain x y HL Hall Hx Hy Hb.
+  assert (HX0 : 0 <= X) by lia.
+  destruct (xchain_uniform Ht L chain 0 identity_f identity_Z HL xinv_identity ltac:(cbn; lia) ltac:(cbn; lia) Hall
+                           ltac:(lia) ltac:(lia)) as [zc [t [Hzc [Hcf [Hi [B0 B1]]]]]].
+  destruct (zchain_spec chain zc Hzc) as [sp [Hsp Hv]].
+  exists sp. split; [exact Hsp|]. unfold chain_image_f. rewrite Hcf.
+  destruct (apply_Z_bound _ x y X _ (x_sp _ _ Hi) Hx Hy B0 B1) as [A0 A1].
+  rewrite (xapply t _ x y Hi ltac:(lia) ltac:(lia) ltac:(lia) ltac:(lia)). rewrite Hv. reflexivity.
+Qed.
+
+Lemma xflatten_helper : table_exactb = true -> forall L X, 0 <= L -> 0 <= X ->
+    forall (l : layout fplacement (Z * Z)) n d t tz,
+      xinv t tz -> Z.abs (b0 tz) <= d * L -> Z.abs (b1 tz) <= d * L -> 0 <= d ->
+      (d + Z.of_nat n) * L + X < 2 ^ 53 -> layout_ok L X l n ->
+      exists zl, zlayout_of l = Some zl /\ flatten_helper_f l t = flatten_helper_K ZR zl tz.
+Proof.
+  intros Ht L X HL0 HX0 l. induction l as [es insts IH] using layout_induction.
+  intros n d t tz Hi Hb0 Hb1 Hd Hn Hok. rewrite layout_ok_eq in Hok. destruct Hok as [Hes His].
+  rewrite zlayout_of_eq. unfold flatten_helper_f, flatten_helper_K.
+  assert (Hins : exists zi, zlayout_insts insts = Some zi /\
+                 flatten_insts cascade_f from_placement_f apply_f t insts =
+                 flatten_insts (fun p q => Some (cascade ZR p q)) (fun p => Some (from_placement ZR p))
+                               (fun t v => Some (apply ZR t v)) tz zi).
+  { clear Hes. induction insts as [|[p oc] rest IHr]; cbn [zlayout_insts] in *.
+    - exists []. split; reflexivity.
+    - rewrite insts_ok_cons in His. destruct His as [Hp [Hc Hrest]]. inversion IH as [|? ? Hsub IHrest]; subst.
+      destruct (IHr IHrest Hrest) as [zr [Hzr Hfr]].
+      destruct oc as [c|].
+      + destruct n as [|k]; [contradiction|].
+        rewrite Nat2Z.inj_succ in Hn.
+        assert (HL : L < 2 ^ 53) by nia.
+        destruct (placement_xchild Ht L p HL Hp) as [it [z [Hit [Hz Hch]]]].
+        rewrite Hz, Hzr.
+        destruct (zstep_bound L (d * L) tz it (from_placement_Z z) (x_sp _ _ Hi) Hch Hb0 Hb1) as [B0 B1].
+        assert (Hlt : (d + 1) * L < 2 ^ 53) by nia.
+        destruct (xcascade_step L t tz it (from_placement_Z z) HL Hi Hch ltac:(lia) ltac:(lia)) as [t1 [Ht1 Hi1]].
+        unfold sub_ok in Hsub; cbn [snd] in Hsub.
+        destruct (Hsub k (d + 1) t1 (cascade_Z tz (from_placement_Z z)) Hi1 ltac:(lia) ltac:(lia) ltac:(lia)
+                       ltac:(lia) Hc) as [zc [Hzc Hfc]].
+        rewrite Hzc. eexists. split; [reflexivity|].
+        rewrite !flatten_insts_cons. rewrite Hit, Ht1.
+        unfold flatten_helper_f, flatten_helper_K in Hfc. rewrite Hfc, Hfr. reflexivity.
+      + destruct (placement_z L p Hp) as [z Hz]. rewrite Hz, Hzr.
+        eexists. split; [reflexivity|]. rewrite !flatten_insts_cons. reflexivity. }
+  destruct Hins as [zi [Hzi Hfi]]. rewrite Hzi. eexists. split; [reflexivity|].
+  rewrite !flatten_helper_eq.
+  rewrite (elems_transform_pointwise (apply_f t) (apply ZR tz) (pt_within X)).
+  - rewrite elems_transform_total, Hfi. reflexivity.
+  - intros [x y] [Hx Hy]. cbn [fst snd] in *.
+    assert (HdL : d * L + X < 2 ^ 53) by nia.
+    destruct (apply_Z_bound tz x y X (d * L) (x_sp _ _ Hi) Hx Hy Hb0 Hb1) as [A0 A1].
+    apply (xapply t tz x y Hi); lia.
+  - exact Hes.
+Qed.
+
+Theorem flatten_f_exact_any_depth : table_exactb = true ->
+  forall (n : nat) (L X : Z) (l : layout fplacement (Z * Z)),
+    0 <= L -> 0 <= X -> Z.of_nat n * L + X < 2 ^ 53 -> layout_ok L X l n ->
+    exists zl, zlayout_of l = Some zl /\ flatten_f l = flatten_K ZR zl /\
+      flatten_f l =
+      match paths zl with
+      | Some ps => Ok (map (fun pe => elem_map (path_map ZR (fst pe)) (snd pe)) ps)
+      | None => Panic
+      end.
+Proof.
+  intros Ht n L X l HL HX Hb Hok.
+  destruct (xflatten_helper Ht L X HL HX l n 0 identity_f identity_Z xinv_identity ltac:(cbn; lia) ltac:(cbn; lia)
+                            ltac:(lia) ltac:(lia) Hok) as [zl [Hzl Hfl]].
+  exists zl. split; [exact Hzl|]. split; [exact Hfl|].
+  unfold flatten_f, flatten_K. rewrite Hfl. exact (flatten_is_path_composition ZR ZRth zl).
+Qed.
